@@ -329,6 +329,8 @@ class Interp:
             loc = st.newloc('notmask', st.vlen(v))
             nv, ov, lo = st.heap[loc], st.ver(v), st.lo(v)
             st.qfacts.append(lambda k, nv=nv, ov=ov, lo=lo: selb(nv, k) == z3.Not(selb(ov, lo + k)))
+            if v.lo is None and v.hi is None:
+                st.ghost.setdefault('notmask', {})[loc] = (nv, v.loc, ov)
             return [(st, SArr(loc, kind='b'))]
         raise Unsupported(f'unary {ast.dump(e.op)} on {type(v).__name__}')
 
@@ -351,7 +353,7 @@ class Interp:
                 st.pc.append(alen(st.heap[loc]) == n)
         st.events.append(dict(kind='pure', why=why, loc=loc,
                               args=[(a.loc, st.ver(a)) for a in args if isinstance(a, SArr)]))
-        nd = 2 if any(isinstance(a, SObj) or (isinstance(a, SArr) and a.ndim == 2) for a in args) else 1
+        nd = 2 if any((isinstance(a, SObj) and a.attrs.get('ndim') != 1) or (isinstance(a, SArr) and a.ndim == 2) for a in args) else 1
         return SArr(loc, ndim=nd)
 
     def arith(self, op, a, b):
@@ -384,6 +386,14 @@ class Interp:
             r = h(self, st, e, a, b)
             if r is not None:
                 return [(st, r)]
+        if isinstance(e.op, (ast.BitAnd, ast.BitOr)) and all(isinstance(x, SArr) and x.kind == 'b' and x.lo is None and x.hi is None
+                                                             for x in (a, b)):
+            loc = st.newloc('andmask' if isinstance(e.op, ast.BitAnd) else 'ormask', st.vlen(a))
+            nv, av, bv = st.heap[loc], st.ver(a), st.ver(b)
+            comb = z3.And if isinstance(e.op, ast.BitAnd) else z3.Or
+            st.qfacts.append(lambda k, nv=nv, av=av, bv=bv: selb(nv, k) == comb(selb(av, k), selb(bv, k)))
+            st.ghost.setdefault('andmask' if isinstance(e.op, ast.BitAnd) else 'ormask', {})[loc] = (nv, (a.loc, av), (b.loc, bv))
+            return [(st, SArr(loc, kind='b'))]
         if isinstance(a, (SArr, SObj, SOpaque)) or isinstance(b, (SArr, SObj, SOpaque)):
             if isinstance(e.op, ast.MatMult) and all(isinstance(x, SArr) and x.ndim == 1 for x in (a, b)):
                 if all(x.lo is None and x.hi is None for x in (a, b)):
@@ -393,7 +403,7 @@ class Interp:
             st.events[-1]['op'] = type(e.op).__name__
             st.events[-1]['operands'] = [(x.loc, st.ver(x)) if isinstance(x, SArr) else None for x in (a, b)]
             if isinstance(e.op, ast.MatMult):
-                one_d = any(isinstance(x, SArr) and x.ndim == 1 for x in (a, b))
+                one_d = any((isinstance(x, SArr) and x.ndim == 1) or (isinstance(x, SObj) and x.attrs.get('ndim') == 1) for x in (a, b))
                 r.ndim = 1 if one_d else 2
             return [(st, r)]
         return [(st, self.arith(e.op, a, b))]
